@@ -268,7 +268,9 @@ def trace_lines(out, drop_main=True, drop_alloc=False):
 def correspond_one(driver, model, harness, case_path, extra_h=(), drop_alloc=False, normalize=None):
     """returns (same, first_diff, nsteps, model_lines, impl_lines)"""
     rc1, mo, me = sh([driver, model, 'run', case_path], timeout=60)
-    rc2, io, ie = sh([harness, 'run', case_path, '--trace'] + list(extra_h), timeout=60)
+    # the schedule comes from the model, where a waiting thread may take any number of consecutive re-read steps: the runtime's
+    # spin detection (which would stop scheduling such a thread and make the replay diverge) is switched off for these runs
+    rc2, io, ie = sh([harness, 'run', case_path, '--trace', '--spin', '1000000'] + list(extra_h), timeout=60)
     ml, il = trace_lines(mo, drop_alloc=drop_alloc), trace_lines(io, drop_alloc=drop_alloc)
     if normalize:
         ml, il = normalize(ml), normalize(il)
